@@ -10,8 +10,9 @@ import vlib
 LEVEL = "proof"
 RULE = ("string frames (2..6 feature columns + label, 5..200 rows) x interaction order 2..4 x cap, run through the real "
         "compute_combined_features with a fresh sampler counter; histories of 2..4 batches in one process with binding caps "
-        "(prior counts kept); two large-cardinality frames (3e5 distinct tuples; 1.5e5 distinct of 4e5 rows) decided "
-        "Python-side by injectivity of tuple -> value; values from prefix/suffix-related, digit, "
+        "(prior counts kept); large frames judged Python-side (3e5 distinct tuples; 1.5e5 distinct of 4e5 rows; six scale "
+        "frames just above 2^16 rows, orders 2..4, distinct-count products beyond 2^31/2^32/2^63/2^64, num_threads 1/4/8, CLI "
+        "default args): tuple -> value a function and injective, every cell non-null, originals and names unchanged; values from prefix/suffix-related, digit, "
         "delimiter-and-digit (adversarial for the length-prefixed encoding), unicode and special families, with planted "
         "tuples whose plain concatenations coincide; non-trivial = some new column whose rows are neither all equal nor "
         "all distinct; distinct = distinct canonical cases")
@@ -146,9 +147,20 @@ def gen_history(rng):
 
 
 def large_cases(seed):
+    """Python-side judged frames.  Row counts just above 2**16 and not multiples of 2, 3, 4, 5, 7, 8; products of the per-column
+    distinct counts beyond 2**31, 2**32, 2**63 and 2**64; each run with num_threads 1, 4, 8 and the CLI defaults otherwise."""
     off = seed % 97
-    return [{"large": {"kind": "grid", "n": 300000, "mod": 1000, "offset": off}},
-            {"large": {"kind": "dup", "n": 400000, "distinct": 150000, "mod": 500, "offset": off}}]
+    th = [1, 4, 8]
+    out = [{"large": {"kind": "grid", "n": 300000, "mod": 1000, "offset": off, "threads": [8]}},
+           {"large": {"kind": "dup", "n": 400000, "distinct": 150000, "mod": 500, "offset": off, "threads": [8]}}]
+    for n, k, d in ((70003, 4, 300),          # 8.1e9  > 2**32
+                    (70003, 2, 66000),        # 4.4e9  > 2**32 (d rows establish the codes, the rest carries the planted pairs)
+                    (65537, 3, 1300),         # 2.2e9  > 2**31
+                    (67003, 4, 60000),        # 1.3e19 > 2**63
+                    (69997, 4, 66000),        # 1.9e19 > 2**64
+                    (262147, 2, 200000)):     # 4e10; enough rows for birthday collisions of any 32-bit code
+        out.append({"large": {"kind": "scale", "n": n, "k": k, "distinct": d, "offset": off, "seed": seed, "threads": th}})
+    return out
 
 
 def fixed_cases():
@@ -219,17 +231,27 @@ HEADER = ("From Coq Require Import List NArith ZArith.\nFrom Outrank Require Imp
           "Import ListNotations.\nOpen Scope N_scope.")
 
 
+LARGE_CLAUSES = {
+    "rows": "the original rows are left untouched (row count / row labels of the returned frame)",
+    "names": 'named by joining its constituent feature names with " AND " (and the original names kept)',
+    "originals": "the original columns are left untouched",
+    "null": "the interaction feature takes a value on every row (one non-null string per row)",
+    "function": "equal values on two rows IF the rows agree on every constituent feature",
+    "injective": "equal values on two rows ONLY IF the rows agree on every constituent feature (up to 64-bit hash collisions)",
+    "raises": "the call terminates normally",
+}
+
+
 def large_verdict(c, r):
-    """large-cardinality frames, decided Python-side: tuple -> value must be injective and a function"""
+    """large frames, decided Python-side (in impl_c10.judge_large): originals / names unchanged, every new cell a non-null
+    string, tuple -> value a function and injective; each frame is run with num_threads 1, 4 and 8"""
     fail = None
-    if r.get("problem") or r["names"][:3] != ["user", "item", "label"] or r["names"][3:] != ["user AND item"]:
-        fail = ('named by joining its constituent feature names with " AND "', {"names": r["names"], "problem": r.get("problem")})
-    elif not r["index_ok"] or not r.get("prefix_ok"):
-        fail = ("the original columns are left untouched", "large frame: prefix_ok=%s index_ok=%s" % (r.get("prefix_ok"), r["index_ok"]))
-    elif r["distinct_values"] != r["distinct_tuples"] or r["collision"] or r["split"]:
-        fail = ("equal values on two rows iff the rows agree on every constituent feature (up to 64-bit hash collisions)",
-                {"distinct_tuples": r["distinct_tuples"], "distinct_values": r["distinct_values"],
-                 "colliding_tuples": r["collision"], "tuple_with_two_values": r["split"], "value_sample": r.get("value_sample")})
+    for run in r["runs"]:
+        pr = run.get("problem")
+        if pr:
+            fail = (LARGE_CLAUSES.get(pr["clause"], pr["clause"]),
+                    {"num_threads": run["num_threads"], "offending": {k: v for k, v in pr.items() if k != "clause"}})
+            break
     return {"fail": fail, "impl": r, "large": True}
 
 
@@ -456,8 +478,10 @@ def check(run, replay):
         for u, uvd in v["units"]:
             r = uvd["impl"]
             if "large" in u:
-                hist["large_frames"].append({"params": u["large"], "distinct_tuples": r.get("distinct_tuples"),
-                                             "distinct_values": r.get("distinct_values"), "rows": r.get("nrows")})
+                hist["large_frames"].append({"params": u["large"], "runs": [
+                    {"num_threads": x.get("num_threads"), "rows": x.get("nrows"), "columns": x.get("columns"),
+                     "problem": (x.get("problem") or {}).get("clause")} for x in r.get("runs", [])],
+                    "cli_defaults_from_parser": r.get("cli_defaults_from_parser")})
                 nontriv = nontriv or bool(r.get("ok"))
                 continue
             b = min(len(u["rows"]) // 25 * 25, 200)
@@ -535,6 +559,8 @@ def check(run, replay):
         "column names contain no ' AND ' (names of distinct combinations are then distinct)",
         "C10_equal_iff / C10_score assume the hash is injective (64-bit collisions are outside the statement)",
     ]
+    run.assumptions.append("args namespaces start from the defaults of outrank/__main__.py's parser (num_threads=8, ...) "
+                           "and override label / order / cap; large frames are additionally run with num_threads 1 and 4")
     run.trusted += ["harness: tools/props/c10.py (generator, relabelling of hash cells, witness search), "
                     "tools/impl/impl_c10.py (drives the real code, reads the frame by position)",
                     "coqparse.py (reads the terms coqc prints)",
